@@ -3,7 +3,8 @@
   dotted-numeric version strings  [vV]? d+ (. d+)*  (any Unicode decimal digits), after
   AwesomeVersion's own normalisation (strip white space, drop one trailing '.', drop the
   prefix "v" / "V").  Sections compare numerically, missing sections are 0.
-  Everything outside the domain is `none` ("unknown": the library has many more strategies).
+  Strings without any digit are rejected (no strategy of the library matches them).
+  Everything else outside the domain is `none` ("unknown": the library has many more strategies).
 
   Mirrors (after the `fix:` commits 2fb09b6, 1a86373, 51ee1bd):
     validation.is_version      accept  iff  not (value < "1.4")  and every section converts
@@ -60,11 +61,19 @@ def sectionsLt : List Nat → List Nat → Bool
 def isContainerWord (s : Str) : Bool :=
   s = "latest".toList || s = "dev".toList || s = "stable".toList || s = "beta".toList
 
-/-- `is_version(value)`: `some true` accepted, `some false` rejected, `none` outside the domain -/
+/-- some decimal digit (of any Unicode block, regex `\d`) occurs in the string -/
+def hasDigit (s : Str) : Bool := s.any fun c => (digitVal c).isSome
+
+/-- `is_version(value)`: `some true` accepted, `some false` rejected, `none` outside the domain.
+    Every awesomeversion strategy pattern needs at least one digit (or is one of the four
+    container words), so a digit-free string has strategy "unknown", the comparison raises and
+    `is_version` rejects it. -/
 def isVersion (s : Str) : Option Bool :=
   if versionString s = ['1', '.', '4'] then some true
   else if isContainerWord (versionString s) then some true else
-  (parseVersion s).map fun v => !(sectionsLt v [1, 4])
+  match parseVersion s with
+  | some v => some (!(sectionsLt v [1, 4]))
+  | none => if hasDigit (versionString s) then none else some false
 
 /-- `safe_is_version` as used for node and gateway versions: the string itself or "1.4" -/
 def safeVersion (s : Str) : Option Str :=
